@@ -34,6 +34,186 @@ def kron_roles(ctx, fi, role_of):
     return out
 
 
+def _leaf_classifier(extra=None):
+    """names the leaves of tomography matrix expressions by their role"""
+    from ..conjalg import Atom
+
+    extra = extra or {}
+
+    def classify(e):
+        if isinstance(e, ast.Attribute) and e.attr in ("T", "real", "imag"):
+            return None
+        if isinstance(e, ast.Call):
+            f = src(e.func)
+            if f.split(".")[-1] in ("identity", "eye"):
+                return Atom("I", "realsym")
+            if f == "_unvec" and len(e.args) == 1:
+                return None
+            if f.split(".")[-1] == "_combine_all" and e.args:
+                t = src(e.args[0])
+                if "RHO" in t:
+                    return Atom("rho", "herm")
+                if "PAULI" in t:
+                    return Atom("P", "herm")
+            return None
+        if isinstance(e, ast.Subscript):
+            sl = e.slice
+            if isinstance(sl, ast.Slice) or (isinstance(sl, ast.Tuple) and all(isinstance(x, ast.Slice) for x in sl.elts)):
+                return None
+            return classify(e.value)
+        if isinstance(e, (ast.Name, ast.Attribute)):
+            t = src(e)
+            if t in extra:
+                return extra[t]
+            low = t.lower()
+            if "rho" in low:
+                return Atom("rho", "herm")
+            if "pauli" in low or low in ("obs",):
+                return Atom("P", "herm")
+            if low in ("id_mat", "identity"):
+                return Atom("I", "realsym")
+        return None
+
+    return classify
+
+
+def conj_conventions(ctx, res, li, mle_cls, cu):
+    """Which operator does each estimator pair with the Choi matrix?  prediction = tr(C . M), M = rho^a (x) P^b."""
+    from .. import conjalg as ca
+    from ..inline import inlined
+
+    conv = {}
+    # ---- linear inversion: rows of the transform matrix and the solved vector
+    fn = inlined(li.node)
+    rows = [a for a in ast.walk(fn) if isinstance(a, ast.Assign) and isinstance(a.targets[0], ast.Subscript) and isinstance(a.targets[0].slice, ast.Tuple) and len(a.targets[0].slice.elts) == 2 and isinstance(a.targets[0].slice.elts[1], ast.Slice)]
+    stores = [a for a in ast.walk(fn) if isinstance(a, ast.Assign) and src(a.targets[0]) == "self._choi"]
+
+    class Solved(ca.Evaluator):
+        def ev(self, e):
+            if isinstance(e, ast.BinOp) and isinstance(e.op, ast.MatMult) and isinstance(e.left, ast.Call) and src(e.left.func).split(".")[-1] in ("pinv", "inv"):
+                return ca.Atom("X", "general")
+            if isinstance(e, ast.Call) and src(e.func).split(".")[-1] in ("solve", "lstsq"):
+                return ca.Atom("X", "general")
+            if isinstance(e, ast.Call) and src(e.func) == "_unvec" and len(e.args) == 1:
+                return self.ev(e.args[0])
+            if isinstance(e, ast.Subscript) and isinstance(e.slice, ast.Constant) and e.slice.value == 0:
+                return self.ev(e.value)  # lstsq(...)[0]
+            return super().ev(e)
+
+    try:
+        if len(rows) != 1 or len(stores) != 1:
+            raise ca.Unknown(f"{len(rows)} row stores, {len(stores)} stores of the result")
+        ev = ca.Evaluator(_leaf_classifier())
+        row = ca.norm(ev.ev(rows[0].value))
+        if not isinstance(row, ca.Vec):
+            raise ca.Unknown(f"row is {row}, not a vectorised matrix")
+        x = ca.norm(Solved(_leaf_classifier()).ev(stores[0].value))
+        if not (isinstance(x, ca.Atom) and x.name == "X"):
+            raise ca.Unknown(f"stored result is {x}")
+        m = row.m if (x.c ^ x.t) else ca.transpose(row.m)  # tr(K^T X): Choi = X -> M = K^T ; Choi = X^T -> M = K
+        conv["LI"] = (ca.parities(ca.norm(m), ["rho", "P"]), rows[0], li, str(ca.norm(m)))
+    except ca.Unknown as e:
+        res.frozen(False, "K-conj-convention", "LIProcessTomography.process", li.site(), li.qualname, "", f"operator paired with the Choi matrix not derived: {e}", construct="LI")
+    # ---- MLE: rows of the A matrix, the model p = A vec(.), and the gradient
+    amat = pvec = grad = None
+    for ci in mle_cls.values():
+        for name, f in ci.methods.items():
+            f_in = inlined(f.node)
+            rws = [a for a in ast.walk(f_in) if isinstance(a, ast.Assign) and isinstance(a.targets[0], ast.Subscript) and isinstance(a.targets[0].slice, ast.Tuple) and len(a.targets[0].slice.elts) == 2 and isinstance(a.targets[0].slice.elts[1], ast.Slice) and any(isinstance(c, ast.Call) and src(c.func).endswith("kron") for c in ast.walk(a.value))]
+            if rws:
+                amat = (f, f_in, rws)
+    if amat is not None:
+        ci = amat[0].cls
+        afield = None
+        for a in ast.walk(ci.node):
+            if isinstance(a, ast.Assign) and isinstance(a.value, ast.Call) and src(a.value.func) == f"self.{amat[0].name}" and isinstance(a.targets[0], ast.Attribute):
+                afield = src(a.targets[0])
+        extra = {afield: ca.Atom("A", "general"), "choi": ca.Atom("C", "herm")} if afield else {}
+        ev = ca.Evaluator(_leaf_classifier(extra))
+        try:
+            ks = []
+            for r in amat[2]:
+                v = ca.norm(ev.ev(r.value))
+                if not isinstance(v, ca.Vec):
+                    raise ca.Unknown(f"row is {v}")
+                ks.append(v.m)
+            # model: <afield> @ vec(choi^?)
+            model = None
+            gradient = None
+            for name, f in ci.methods.items():
+                f_in = inlined(f.node)
+                for n in ast.walk(f_in):
+                    if isinstance(n, ast.BinOp) and isinstance(n.op, ast.MatMult):
+                        try:
+                            l = ca.norm(ev.ev(n.left))
+                        except ca.Unknown:
+                            continue
+                        if isinstance(l, ca.Atom) and l.name == "A":
+                            if not l.t:
+                                try:
+                                    r = ca.norm(ev.ev(n.right))
+                                except ca.Unknown:
+                                    continue
+                                if isinstance(r, ca.Vec) and isinstance(r.m, ca.Atom) and r.m.name == "C" and model is None:
+                                    model = (r.m, n, f)
+                            elif gradient is None:
+                                gradient = (l, n, f)
+            if model is None:
+                raise ca.Unknown("model `A @ vec(choi)` not found")
+            cpar = model[0].norm().t  # parity of the Choi matrix inside vec(): 0 -> tr(K^T C), 1 -> tr(K C)
+            ms = [ca.norm(k if cpar else ca.transpose(k)) for k in ks]
+            ps = [ca.parities(m, ["rho", "P"]) for m in ms]
+            if any(p_ != ps[0] for p_ in ps):
+                raise ca.Unknown(f"rows of the A matrix use different conventions: {[str(m) for m in ms]}")
+            conv["MLE"] = (ps[0], amat[2][0], amat[0], str(ms[0]))
+            if gradient is None:
+                res.frozen(False, "K-conj-gradient", f"{ci.name}", amat[0].site(), ci.name, "", "gradient expression `A^T @ weights` not found", construct="gradient")
+            else:
+                l, n, f = gradient
+                # G = sum_k w_k unvec(row_k^(conj?)) = sum_k w_k K_k^(c) ; the derivative of sum_k n_k log tr(C M_k) w.r.t. C is sum_k w_k M_k
+                gs = [ca.norm(ca.conj(k) if l.c else k) for k in ks]
+                gp = ca.parities(gs[0], ["rho", "P"])
+                okg = gp == ps[0]
+                res.add(okg, "K-conj-gradient", f"{f.qualname}", f.site(n), f.qualname, f"the gradient sums the operators {ms[0]} the model pairs with the Choi matrix",
+                        f"the model predicts tr(C . {ms[0]}) but the gradient is built from {gs[0]} (`{src(n.left)}`): for inputs/observables with complex entries (Y basis) the descent direction is the transpose of the true gradient and the iteration stops at its starting point",
+                        construct=src(n)[:120])
+        except ca.Unknown as e:
+            res.frozen(False, "K-conj-convention", "MLE", amat[0].site(), amat[0].qualname, "", f"operator paired with the Choi matrix not derived: {e}", construct="MLE")
+    else:
+        res.frozen(False, "K-conj-convention", "MLE", MLE, "MLE", "", "A-matrix construction (rows vec(kron(rho, projector))) not found", construct="MLE")
+    # ---- reference: outer(vec(U'), conj vec(U')) pairs with rho^T (x) P
+    rets = [r for r in walk_no_nested(cu.node) if isinstance(r, ast.Return)]
+    try:
+        rv = rets[0].value
+        if not (isinstance(rv, ast.Call) and src(rv.func).endswith("outer") and len(rv.args) == 2):
+            raise ca.Unknown("not an outer product")
+        pn = cu.params()[0]
+        ev = ca.Evaluator(_leaf_classifier({pn: ca.Atom("U", "general")}))
+        a, b = ca.norm(ev.ev(rv.args[0])), ca.norm(ev.ev(rv.args[1]))
+        if not (isinstance(a, ca.Vec) and isinstance(b, ca.Vec) and isinstance(a.m, ca.Atom) and isinstance(b.m, ca.Atom)):
+            raise ca.Unknown(f"outer({a}, {b})")
+        if a.m.t != b.m.t or a.m.c == b.m.c:
+            res.bad("K-conj-convention", "choi_from_unitary", cu.site(rets[0]), cu.qualname, f"outer({a}, {b}) is not |U>><<U| (exactly one factor conjugated, both vectorised the same way)", construct=src(rv)[:120])
+        else:
+            conv["REF"] = ({"rho": 1, "P": 0} if b.m.c else {"rho": 0, "P": 1}, rets[0], cu, f"outer({a}, {b})")
+    except (ca.Unknown, IndexError) as e:
+        res.frozen(False, "K-conj-convention", "choi_from_unitary", cu.site(), cu.qualname, "", f"reference Choi construction not recognised: {e}", construct="ref")
+    names = {"LI": "linear inversion", "MLE": "maximum likelihood", "REF": "choi_from_unitary"}
+    def show(p_):
+        return "rho" + ("^T" if p_["rho"] else "") + " (x) P" + ("^T" if p_["P"] else "")
+    if "REF" in conv:
+        for k in ("LI", "MLE"):
+            if k in conv:
+                p_, node, f, txt = conv[k]
+                res.add(p_ == conv["REF"][0], "K-conj-convention", f"{names[k]} vs reference", f.site(node), f.qualname, f"{names[k]} pairs the Choi matrix with {show(p_)}, as the reference does",
+                        f"{names[k]} pairs the Choi matrix with {show(p_)} ({txt}) but choi_from_unitary corresponds to {show(conv['REF'][0])}: the estimate is the complex conjugate (transpose) of the reference Choi matrix - invisible for real symmetric gates (H, CNOT), wrong for S, T, Ry",
+                        construct=src(node.value)[:160] if hasattr(node, "value") else "")
+    elif "LI" in conv and "MLE" in conv:
+        res.add(conv["LI"][0] == conv["MLE"][0], "K-conj-convention", "LI vs MLE", conv["MLE"][2].site(conv["MLE"][1]), conv["MLE"][2].qualname, "both estimators pair the Choi matrix with the same operator",
+                f"linear inversion pairs the Choi matrix with {show(conv['LI'][0])}, maximum likelihood with {show(conv['MLE'][0])}: one is the conjugate of the other", construct="LI vs MLE")
+    res.count("conj_conventions", len(conv))
+
+
 def check(ctx) -> Result:
     res = Result("C16")
     res.explanation = (
@@ -125,6 +305,7 @@ def check(ctx) -> Result:
     res.add(ref_order == orders["LI"][0], "K-order-choi-factors", "choi_from_unitary vs estimators", cu.site(rets[0]), cu.qualname, f"reference and estimators use {ref_order}",
             f"choi_from_unitary vectorises the unitary row-major, i.e. in {ref_order} factor order, while the estimators reconstruct in {orders['LI'][0]} order: for a non-symmetric unitary the linear-inversion result equals choi_from_unitary(U.T), not choi_from_unitary(U)",
             construct=src(rets[0].value))
+    conj_conventions(ctx, res, li, mle_cls, cu)
     # ---- experiment construction
     PTc = ctx.ix.module(PT).classes.get("ProcessTomography")
     cc = PTc.methods["_create_circuit_and_input"]
